@@ -46,9 +46,14 @@ func (f *Unzip) Call(s *slip.Scope, args slip.List, depth int) (result slip.Obje
 	slip.CheckArgCount(s, depth, f, args, 1, 12)
 	data := octetsArg(args[0])
 
-	r, _ := gzip.NewReader(bytes.NewReader(data)) // can't fail
-	// The gzip reader panic on error and does not return an error.
-	buf, _ := io.ReadAll(r)
+	r, err := gzip.NewReader(bytes.NewReader(data))
+	if err != nil {
+		slip.ErrorPanic(s, depth, "unzip failed. %s", err)
+	}
+	buf, err := io.ReadAll(r)
+	if err != nil {
+		slip.ErrorPanic(s, depth, "unzip failed. %s", err)
+	}
 	var plist slip.List
 	if 0 < len(r.Comment) {
 		plist = append(plist, slip.Symbol(":comment"), slip.String(r.Comment))
